@@ -64,6 +64,7 @@ type target struct {
 	SeqHints map[string]bool // hint keys that are reads of shared state: the k-th evaluation on a path is parameter <Var>_<k>
 	LoopVars map[string]hint // variable assigned by a range loop -> parameter that summarises the loop's result for it
 	Effects  []string        // further statement prefixes that are calls for effect only (skipped), e.g. metric exporters
+	Lit      int             // > 0: translate the Lit-th function literal inside Func (its free variables are Func's receiver / parameters)
 	// loopbody.go: one iteration of a loop as a step function
 	LoopBody  int               // N >= 1: translate the prologue + the body of the N-th top-level for / range statement
 	RangeVars map[string]string // Go types of the range variables of that loop (name -> type text)
@@ -1403,6 +1404,9 @@ func translate(root *rootT, t target) (def string, info outFn) {
 		for _, n := range f.Names {
 			addVar(n.Name, f.Type)
 		}
+	}
+	if t.Lit > 0 { // the target is the t.Lit-th function literal inside the function (effects.go)
+		fd = litDecl(fd, t.Lit, addVar)
 	}
 	if t.LoopBody > 0 {
 		x.loop = findLoop(fd.Body, t.LoopBody) // loopbody.go
